@@ -25,7 +25,7 @@ def performs (handler failAt : String) : Bool :=
   | "evmdeposit" | "evmretry1" | "evmretry2" => failAt == "events"
   | "subdeposit" | "subsys" => failAt == "events"
   | "subretry" => failAt == "events" || failAt == "head" || failAt == "block"
-  | "btcdeposit" => failAt == "hash" || failAt == "block"
+  | "btcdeposit" => failAt == "hash" || failAt == "block" || failAt == "nilblock"
   | _ => false
 
 def handle (op : String) (args : List String) (impl : String) : Option Verdict :=
@@ -48,12 +48,15 @@ def handle (op : String) (args : List String) (impl : String) : Option Verdict :
       | some h => P05 cfg w ls h
       | none => false
     let crashed := ls.any (fun l => l.any (fun r => r.2.isSome))
+    let panics := decide ((lifes.splitOn ":p").length > 1)
     let hfail := m.any (fun l => l.2.any (fun o => !o.calls.isEmpty && o.store.isNone))
     let sfail := m.any (fun l => l.2.any (fun o => match o.store with | some (_, false) => true | _ => false))
     let rescan := m.any (fun l => l.2.any (fun o => o.store.isSome))
-    return ⟨showHist m, ok, s!"{op}:{kindStr kind}:lifes={min ls.length 3}:flags={flags}:crash={crashed}:hfail={hfail}:sfail={sfail}:progress={rescan}"⟩
+    return ⟨showHist m, ok, s!"{op}:{kindStr kind}:lifes={min ls.length 3}:flags={flags}:crash={crashed}:panic={panics}:hfail={hfail}:sfail={sfail}:progress={rescan}"⟩
   | "hfetch", [handler, failAt] => some <| Id.run do
     let fails := performs handler failAt
+    -- a node that answers without error and without a block: the nil dereference is a panic (process death), never success
+    if failAt == "nilblock" then return ⟨"panic", impl != "ok", s!"hfetch:{handler}:{failAt}"⟩
     let m := handlerResult fails
     -- property: a failed fetch that the handler depends on surfaces as an error; no failure ⇒ nil
     let ok := if fails then impl == "err" else if failAt == "-" then impl == "ok" else true
